@@ -16,6 +16,17 @@ import (
 
 type crashState struct{}
 
+// preemptCalls: calls into the store models that count as synchronisation points in schedule exploration.
+var preemptCalls = map[string]bool{
+	"(*github.com/dgraph-io/badger/v3.DB).Update":        true,
+	"(*github.com/dgraph-io/badger/v3.DB).View":          true,
+	"(*github.com/dgraph-io/badger/v3.WriteBatch).Flush":  true,
+	"(*github.com/janelia-flyem/dvid/zzverif/vstore.Store).Put":    true,
+	"(*github.com/janelia-flyem/dvid/zzverif/vstore.Store).Get":    true,
+	"(*github.com/janelia-flyem/dvid/zzverif/vstore.Store).Delete": true,
+	"(*github.com/janelia-flyem/dvid/zzverif/vstore.Store).RawPut": true,
+}
+
 type threadKill struct{}
 
 type thread struct {
